@@ -10,7 +10,9 @@
    line break and t1, t2 both start with one, or are both empty), so a token that ends before the first line break that follows it is
    cut in the same way when that line break changes from LF to CR LF — whatever stands between the token and the line break.  Block
    comments and directives look for their closing delimiter across line breaks; when they are terminated they are determined by
-   their own bytes (LexerRelayoutProofs.lex_token_closed_on_right). *)
+   their own bytes (LexerRelayoutProofs.lex_token_closed_on_right); an unterminated block comment is followed by blanks only
+   (lex_token_open_comment_rest), which stay blanks (lex_token_stable_q).  For an unterminated DIRECTIVE the stability theorem
+   asks for the very same continuation, so it is excluded by the hypothesis (on the streams the link held there too). *)
 From PasfmtVerif Require Import Model.Lexer Proofs.LexerProofs Proofs.LexerSpecProofs Proofs.LexerRelayoutProofs Proofs.FmtDataProofs.
 From Coq Require Import Arith Lia.
 
@@ -384,12 +386,62 @@ Proof.
     apply IH; [cbn [length] in Hn; lia|exact H].
 Qed.
 
-(* what the theorem asks of a token: no line break in its text; a block comment or directive is terminated *)
+(* an unterminated block comment runs to the end of the text, trailing blanks excepted *)
+Lemma cdoc_open_comment_rest k nlb (q x : bytes) ck :
+  compiler_directive_or_comment k nlb (q ++ x) = TOk (length q) (RTT_Comment ck) ->
+  find_block_comment_end k q = None -> all_ws x = true.
+Proof.
+  unfold compiler_directive_or_comment. intros H Hq. destruct (next_is 36 (q ++ x)).
+  - exfalso. apply tshift_inv in H. destruct H as (n' & H & _). unfold compiler_directive in H. cbv zeta in H.
+    match type of H with context [parse_directive_end ?a ?b ?c] => destruct (parse_directive_end a b c) end; try discriminate H;
+      injection H as _ Hty;
+      match type of Hty with directive_token_type ?c = _ => destruct (directive_token_type_cases c) as [[k' E]|E]; rewrite E in Hty; discriminate Hty end.
+  - apply tok_inv in H. unfold block_comment in H. rewrite find_block_comment_end_eq in H, Hq.
+    destruct (find_sub (block_close k) (q ++ x)) as [i|] eqn:E; cbn [option_map] in H.
+    + exfalso. injection H as Hi _. pose proof (find_sub_stable (block_close k) q x [] i E ltac:(blia)) as E'. rewrite app_nil_r in E'.
+      rewrite E' in Hq. discriminate Hq.
+    + injection H as Hi _. destruct (trimmed_len_spec (q ++ x)) as (_ & S1 & _). rewrite Hi, skipn_app_exact in S1. exact S1.
+Qed.
+
+Lemma lex_token_open_comment_rest st nlb b (q x : bytes) ck a :
+  lex_token st nlb b (q ++ x) = Some (length q, RTT_Comment ck, a) ->
+  (b = 123 \/ (b = 40 /\ exists q1, q = 42 :: q1)) ->
+  comment_unterminated b q = true -> all_ws x = true.
+Proof.
+  intros H Hb Hu. unfold comment_unterminated, comment_body in Hu. destruct Hb as [-> |[-> [q1 ->]]].
+  - change (123 =? 123) with true in Hu. cbn [fst snd] in Hu.
+    assert (C : forall t, lex_common st nlb 123 t = compiler_directive_or_comment BCK_Brace nlb t) by reflexivity.
+    destruct (find_block_comment_end BCK_Brace q) eqn:Eq; [discriminate Hu|].
+    unfold lex_token in H. destruct (ls_asm st); cbn in H; rewrite C in H;
+      (destruct (compiler_directive_or_comment BCK_Brace nlb (q ++ x)) as [n0 ty0|] eqn:E; [|discriminate H]);
+      injection H as -> -> _; exact (cdoc_open_comment_rest BCK_Brace nlb q x ck E Eq).
+  - change (40 =? 123) with false in Hu. cbn [fst snd tl] in Hu.
+    assert (C : forall t, lex_common st nlb 40 (42 :: t) = tshift 1 (compiler_directive_or_comment BCK_ParenStar nlb t)) by reflexivity.
+    destruct (find_block_comment_end BCK_ParenStar q1) eqn:Eq; [discriminate Hu|].
+    cbn [app length] in H. unfold lex_token in H. destruct (ls_asm st); cbn in H; rewrite C in H;
+      (destruct (compiler_directive_or_comment BCK_ParenStar nlb (q1 ++ x)) as [n0 ty0|] eqn:E; [|discriminate H]);
+      cbn [tshift] in H; injection H as Hn -> _; assert (n0 = length q1) by blia; subst n0;
+      exact (cdoc_open_comment_rest BCK_ParenStar nlb q1 x ck E Eq).
+Qed.
+
+Lemma all_ws_all_blank (x : bytes) : all_ws x = true -> all_blank x.
+Proof.
+  unfold all_ws. intros H. apply Nat.eqb_eq in H. pose proof (count_ws_strip x) as S. rewrite H, firstn_all in S. exact S.
+Qed.
+
+Lemma all_ws_crlf (x : bytes) : all_ws x = true -> all_ws (lf_to_crlf x) = true.
+Proof. intros H. apply all_blank_all_ws, (all_blank_crlf (length x)); [lia|apply all_ws_all_blank, H]. Qed.
+
+(* what the theorem asks of a token: no line break in its text; a directive is terminated (a block comment may be open: then only
+   blanks follow it) *)
 Definition cdoc_start (b : byte) (q : bytes) : bool := (b =? 123) || ((b =? 40) && next_is 42 q).
 Definition seg_crlf_ok (sg : seg) : Prop :=
   match sg with
   | (_, [], _) => True
-  | (_, b :: q, ty) => eolf (b :: q) /\ (cdoc_start b q = true -> closed_on_right b q ty)
+  | (_, b :: q, ty) =>
+      eolf (b :: q)
+      /\ (cdoc_start b q = true ->
+          closed_on_right b q ty \/ exists ck, ty = RTT_Comment ck /\ is_line_kind ck = false /\ comment_unterminated b q = true)
   end.
 Definition crlf_seg3 (sg : seg) : seg := match sg with (ws, c, ty) => (lf_to_crlf ws, c, ty) end.
 
@@ -426,10 +478,15 @@ Proof.
     { rewrite contains10_crlf. rewrite Et in Htok, Hst.
       destruct (cdoc_start b q) eqn:Ecd.
       - split.
-        + rewrite <- Lq in Htok |- *. apply (lex_token_closed_on_right _ _ b q x _ ty a Htok); [|exact (Hcl eq_refl)].
-          unfold cdoc_start in Ecd. apply orb_true_iff in Ecd. destruct Ecd as [E|E]; [left; apply N.eqb_eq, E|right].
-          apply andb_true_iff in E. destruct E as [E1 E2]. split; [apply N.eqb_eq, E1|].
-          destruct q as [|c q1]; [discriminate E2|]. cbn [next_is] in E2. apply N.eqb_eq in E2. subst c. exists q1. reflexivity.
+        + assert (Hbq : b = 123 \/ (b = 40 /\ exists q1, q = 42 :: q1)).
+          { unfold cdoc_start in Ecd. apply orb_true_iff in Ecd. destruct Ecd as [E|E]; [left; apply N.eqb_eq, E|right].
+            apply andb_true_iff in E. destruct E as [E1 E2]. split; [apply N.eqb_eq, E1|].
+            destruct q as [|c q1]; [discriminate E2|]. cbn [next_is] in E2. apply N.eqb_eq in E2. subst c. exists q1. reflexivity. }
+          rewrite <- Lq in Htok |- *. destruct (Hcl eq_refl) as [Hclosed|(ck & -> & Hk & Hu)].
+          * exact (lex_token_closed_on_right _ _ b q x _ ty a Htok Hbq Hclosed).
+          * pose proof (lex_token_open_comment_rest _ _ b q x ck a Htok Hbq Hu) as Hx.
+            apply (lex_token_stable_q _ _ b q x _ _ a Htok). cbn [sep_ok]. rewrite Hk.
+            split; [apply all_ws_sep_start, all_ws_crlf, Hx|intros _; apply all_ws_crlf, Hx].
         + destruct Hst as [S1 S2]. split; [exact S1|].
           destruct (eol_split x) as (p' & t1 & Ex & Hp' & Hh). rewrite Ex, lf_to_crlf_app, (lf_to_crlf_eolf p' Hp').
           rewrite Ex in S2. unfold is_u3000_at in *.
@@ -493,17 +550,23 @@ Proof.
   intros H. apply andb_true_iff in H. destruct H as [H1 H2]. apply negb_true_iff in H1, H2. split; assumption.
 Qed.
 
+Definition open_commentb (b : byte) (q : bytes) (ty : RawTokenType) : bool :=
+  match ty with RTT_Comment ck => negb (is_line_kind ck) && comment_unterminated b q | _ => false end.
+
 Definition seg_crlf_okb (sg : seg) : bool :=
   match sg with
   | (_, [], _) => true
-  | (_, b :: q, ty) => forallb (fun x => negb (is_eol x)) (b :: q) && (negb (cdoc_start b q) || closed_on_rightb b q ty)
+  | (_, b :: q, ty) =>
+      forallb (fun x => negb (is_eol x)) (b :: q) && (negb (cdoc_start b q) || closed_on_rightb b q ty || open_commentb b q ty)
   end.
 
 Lemma seg_crlf_okb_ok sg : seg_crlf_okb sg = true -> seg_crlf_ok sg.
 Proof.
   destruct sg as [[ws [|b q]] ty]; [intros _; exact I|]. unfold seg_crlf_okb, seg_crlf_ok. intros H.
   apply andb_true_iff in H. destruct H as [H1 H2]. split; [exact H1|]. intros Hc. rewrite Hc in H2. cbn [negb orb] in H2.
-  apply closed_on_rightb_ok, H2.
+  apply orb_true_iff in H2. destruct H2 as [H2|H2]; [left; apply closed_on_rightb_ok, H2|right].
+  unfold open_commentb in H2. destruct ty; try discriminate H2. apply andb_true_iff in H2. destruct H2 as [A B]. apply negb_true_iff in A.
+  eexists. split; [reflexivity|]. split; assumption.
 Qed.
 
 Lemma segs_crlf_okb_ok segs : forallb seg_crlf_okb segs = true -> Forall seg_crlf_ok segs.
